@@ -19,5 +19,6 @@ fn main() {
             _ => { i += 1; }
         }
     }
+    if a[1]=="exp" { exp::run_exp(); return; }
     if !dispatch(a[1].as_str(), &args) { eprintln!("unknown property {}", a[1]); std::process::exit(2); }
 }
